@@ -628,7 +628,7 @@ func (e *c15Env) coqCase(f c15Final) string {
 		if n.op.Patient {
 			expired = 0
 		}
-		evs[i] = strconv.Itoa(2*(expired+2*(pick+8*ev.Node)))
+		evs[i] = strconv.Itoa(2 * (expired + 2*(pick+8*ev.Node)))
 	}
 	res := make([]string, len(e.nodes))
 	for i, n := range e.nodes {
@@ -814,12 +814,18 @@ func c15OpStrings(ops []c15Op) []string {
 	return out
 }
 
-func c15Ins(d, dig int, colls ...int) c15Op { return c15Op{Kind: c15Insert, DB: d, Dig: dig, Colls: colls} }
-func c15Upd(d, dig int, colls ...int) c15Op { return c15Op{Kind: c15Update, DB: d, Dig: dig, Colls: colls} }
-func c15Del(d int) c15Op                    { return c15Op{Kind: c15Delete, DB: d} }
-func c15Ld() c15Op                          { return c15Op{Kind: c15Load} }
+func c15Ins(d, dig int, colls ...int) c15Op {
+	return c15Op{Kind: c15Insert, DB: d, Dig: dig, Colls: colls}
+}
+func c15Upd(d, dig int, colls ...int) c15Op {
+	return c15Op{Kind: c15Update, DB: d, Dig: dig, Colls: colls}
+}
+func c15Del(d int) c15Op { return c15Op{Kind: c15Delete, DB: d} }
+func c15Ld() c15Op       { return c15Op{Kind: c15Load} }
 
-func c15Rejected(kind string) bool { return kind == "EConflict" || kind == "EExists" || kind == "ENotFound" }
+func c15Rejected(kind string) bool {
+	return kind == "EConflict" || kind == "EExists" || kind == "ENotFound"
+}
 
 func c15Steady(f c15Final, d int) bool {
 	en, ok := f.Reg[d]
